@@ -170,7 +170,8 @@ impl World for ShapeWorld {
         if self.cache.is_none() {
             self.cache = Some(self.all_objects());
         }
-        let mut objects: Vec<ListedObject> = self.cache.as_ref().expect("cached").iter().filter(|o| o.key.starts_with(&prefix)).cloned().collect();
+        let objects: Vec<ListedObject> = self.cache.as_ref().expect("cached").iter().filter(|o| o.key.starts_with(&prefix)).cloned().collect();
+        let mut objects = crate::s3sim::page_after(objects, req);
         let total = objects.len();
         objects.truncate(max_keys.unwrap_or(1000).min(1000));
         let truncated = objects.len() < total;
